@@ -46,7 +46,9 @@ Norm(ss) == Canon([k \in 1 .. Len(ss) |-> RunToLit(ss[k])])
 
 \* equality of the byte strings denoted by two segment lists: equal normal forms, or (when the recogniser
 \* segmented the same bytes differently, e.g. a run that happens to continue into the next byte) byte by byte
-SegsEq(a, b) == \/ Norm(a) = Norm(b)
+SegsEq(a, b) == \/ a = b
+                \/ /\ SegsLen(a) = SegsLen(b)        \* (cheap refutation first: maps of hundreds of keys compare n^2 pairs)
+                   /\ Norm(a) = Norm(b)
                 \/ /\ SegsLen(a) = SegsLen(b)
                    /\ \A i \in 1 .. SegsLen(a) : SegsByte(a, i) = SegsByte(b, i) /\ SegsByte(a, i) >= 0
 
